@@ -5,7 +5,11 @@ use tracing::info;
 use crate::lsp::backend::Backend;
 
 pub async fn run_server() -> anyhow::Result<()> {
-    init()?;
+    // Logging is best effort: an unusable data directory must not keep the server from starting
+    // (it then runs without a cache and tells the user so)
+    if let Err(e) = init() {
+        eprintln!("version-lsp: logging disabled: {}", e);
+    }
 
     info!("Starting version-lsp server");
 
